@@ -183,26 +183,45 @@ def override_chain(ctx, py: PyRepo, w: Wiring):
     ctx.analysed['overrides of the three rules'] = n
 
 
-def pretty_decorator_forwards(py: PyRepo) -> bool:
+def pretty_wrapper(py: PyRepo):
+    """the function the @pretty decorator substitutes for a method: value-level paths plus the values that stand for the receiver,
+    the forwarded positional arguments and the decorated function. -> (wrapper def, paths, SELF, forwarded args tuple, FUNC name)"""
     ci = py.cls('PrettyPrintingInterpreter')
     fn = ci.methods.get('pretty')
     if fn is None:
+        return None
+    inner = [n for n in ast.walk(fn) if isinstance(n, ast.FunctionDef) and n is not fn
+             and not any(isinstance(m, ast.FunctionDef) and m is not n for m in ast.walk(n))]
+    if len(inner) != 1 or inner[0].args.vararg is None:
+        return None
+    wrp = inner[0]
+    outer = [n for n in ast.walk(fn) if isinstance(n, ast.FunctionDef) and n is not fn and n is not wrp and wrp in ast.walk(n)]
+    if len(outer) != 1 or len(outer[0].args.args) != 1:
+        return None
+    func = outer[0].args.args[0].arg
+    star = ('param', '*' + wrp.args.vararg.arg)
+    if wrp.args.args:
+        SELF, rest = ('param', wrp.args.args[0].arg), (('star', star),)
+        if len(wrp.args.args) != 1:
+            return None
+    else:
+        SELF, rest = ('item', star, 0), (('star', ('rest', star, 1, 0)),)
+    kw = ((None, ('param', '**' + wrp.args.kwarg.arg)),) if wrp.args.kwarg else ()
+    return wrp, PyEval().paths(wrp), SELF, rest, kw, func
+
+
+def pretty_decorator_forwards(py: PyRepo) -> bool:
+    """every returning path of the wrapper returns the value of the next implementation (super() of the pretty printer, looked up by
+    the decorated function's name) called with the same arguments"""
+    facts = pretty_wrapper(py)
+    if facts is None:
         return False
-    wrappers = [n for n in ast.walk(fn) if isinstance(n, ast.FunctionDef) and n.name == 'wrapper']
-    if len(wrappers) != 1:
-        return False
-    wrp = wrappers[0]
-    src = ast.unparse(wrp)
-    assigns = [n for n in ast.walk(wrp) if isinstance(n, ast.Assign) and isinstance(n.targets[0], ast.Name)
-               and n.targets[0].id == 'result']
-    rets = [n for n in ast.walk(wrp) if isinstance(n, ast.Return)]
-    if len(assigns) != 1 or len(rets) != 1:
-        return False
-    val = ast.unparse(assigns[0].value)
-    good_call = val == 'getattr(super(PrettyPrintingInterpreter, self), func.__name__)(*nargs, **kwargs)'
-    unpack = 'self, *nargs = args' in src
-    good_ret = isinstance(rets[0].value, ast.Name) and rets[0].value.id == 'result'
-    return good_call and unpack and good_ret
+    _wrp, paths, SELF, rest, kw, func = facts
+    nxt = ('call', ('name', 'getattr'), (('call', ('name', 'super'), (('name', 'PrettyPrintingInterpreter'), SELF), ()),
+                                         ('attr', ('name', func), '__name__')), ())
+    want = ('call', nxt, rest, kw)
+    rets = [p for p in paths if p.end[0] == 'return']
+    return bool(rets) and all(p.end[1] == want for p in rets)
 
 
 def proofexp_static(ctx, py: PyRepo):
